@@ -160,7 +160,24 @@ fn check_workspace(src: &Sources, phase: &str, with_base: bool, use_conf: bool, 
         None
     };
     let before = snapshot(&target).unwrap();
-    let r: CliResult = if use_conf {
+    // every third configuration-file run also passes options, which take precedence over the file: the file
+    // names another (existing) target and a main module that does not exist
+    let overridden = use_conf && hash64(&src.files) % 3 == 0;
+    let other_target = dir.path.join("conf-out.yaml");
+    let r: CliResult = if overridden {
+        st.inc("cli_runs_with_options_over_config_file");
+        std::fs::write(&other_target, sentinel()).unwrap();
+        let mut conf = String::from("[api]\nmain = \"not-the-main.oal\"\ntarget = \"conf-out.yaml\"\n");
+        if with_base {
+            conf.push_str("base = \"not-the-base.yaml\"\n");
+        }
+        std::fs::write(dir.path.join("oal.toml"), conf).unwrap();
+        let mut opts = vec!["-m", main.as_str(), "-t", "out.yaml"];
+        if with_base {
+            opts.extend(["-b", "base.yaml"]);
+        }
+        crate::drive::cli::run_cli_conf_opts(&dir.path, "oal.toml", &opts)
+    } else if use_conf {
         let mut conf = format!("[api]\nmain = \"{main}\"\ntarget = \"out.yaml\"\n");
         if with_base {
             conf.push_str("base = \"base.yaml\"\n");
@@ -177,6 +194,13 @@ fn check_workspace(src: &Sources, phase: &str, with_base: bool, use_conf: bool, 
     if r.timed_out {
         viol("C13 cli-timeout".into(), "oal-cli did not finish", Value::Null);
         return out;
+    }
+    if overridden && std::fs::read(&other_target).ok().as_deref() != Some(sentinel().as_bytes()) {
+        viol(
+            "C13 config-file-target-written-despite-option".into(),
+            "the target named in the configuration file was written although --target names another file",
+            Value::Null,
+        );
     }
     if r.signal.is_some() || !matches!(r.code, Some(0) | Some(1)) {
         viol(format!("C13 cli-exit:{:?}/{:?}", r.code, r.signal), "oal-cli ended with a signal or an exit code other than 0/1", Value::Null);
@@ -295,12 +319,38 @@ fn check_workspace(src: &Sources, phase: &str, with_base: bool, use_conf: bool, 
     {
         let conf = format!("[api]\nmain = \"{main}\"\ntarget = \"out-lsp.yaml\"\n");
         let _ = std::fs::write(dir.path.join("oal.toml"), conf);
-        match crate::drive::lsp::Lsp::start(&dir.path, None) {
+        // half of the sessions have a second workspace folder, with a broken program of its own, before or after
+        // the folder under test: each folder's verdict must reach the client
+        let other = TempDir::new("c13other");
+        let two = hash64(&(&src.files, 1u8)) % 2 == 0;
+        let other_first = hash64(&(&src.files, 2u8)) % 2 == 0;
+        let other_main = other.path.join("main.oal");
+        let folders: Vec<std::path::PathBuf> = if two {
+            std::fs::write(&other_main, "let broken = { 'a nowhere };\nres / on get -> <broken>;\n").unwrap();
+            std::fs::write(other.path.join("oal.toml"), "[api]\nmain = \"main.oal\"\ntarget = \"out.yaml\"\n").unwrap();
+            st.inc("real_lsp_sessions_with_two_folders");
+            if other_first {
+                vec![other.path.clone(), dir.path.clone()]
+            } else {
+                vec![dir.path.clone(), other.path.clone()]
+            }
+        } else {
+            vec![dir.path.clone()]
+        };
+        match crate::drive::lsp::Lsp::start_folders(&dir.path, &folders, None) {
             Ok(mut lsp) => {
                 let uri = crate::drive::lsp::file_uri(&dir.path.join(main));
                 match lsp.position_request("textDocument/definition", &uri, 0, 0) {
                     Ok(_) => {
-                        let n: usize = lsp.diags.values().map(|d| d.len()).sum();
+                        let other_uri = crate::drive::lsp::file_uri(&other_main);
+                        let n: usize = lsp.diags.iter().filter(|(u, _)| **u != other_uri).map(|(_, d)| d.len()).sum();
+                        if two && lsp.diags.get(&other_uri).map_or(0, |d| d.len()) == 0 {
+                            viol(
+                                "C13 real-lsp-diagnostics-disagree:no-diagnostic-for-the-other-folder".into(),
+                                "oal-lsp publishes no diagnostic for the broken program of another workspace folder",
+                                json!({"other_folder_first": other_first}),
+                            );
+                        }
                         st.inc("real_lsp_compared");
                         if (n > 0) == r.success() {
                             viol(
